@@ -1,5 +1,5 @@
-(* C18 — model of gix-ref's file store read side after the three `fix:` commits listed in NOTES.md.
-   Sources: gix-features/src/fs.rs (shared::cmp_entry_names, walkdir_sorted_new),
+(* C18 — model of gix-ref's file store read side after the `fix:` commits listed in NOTES.md.
+   Sources: gix-features/src/fs.rs (walkdir_sorted_new),
    gix-ref/src/store/file/loose/iter.rs (SortedLoosePaths), gix-ref/src/store/file/overlay_iter.rs
    (IterInfo::from_prefix, LooseThenPacked::next), gix-ref/src/store/packed/iter.rs (iter, iter_prefixed),
    gix-ref/src/store/file/find.rs (find_one_with_verified_input, find_inner, ref_contents,
@@ -42,44 +42,20 @@ Definition is_nil {A} (l : list A) : bool := match l with [] => true | _ => fals
 
 (* ---- the sorted directory walk ------------------------------------------------------------ *)
 
-(* Option<&u8>::cmp : None < Some, Some by value *)
-Definition cmp_opt_byte (a b : option byte) : comparison :=
-  match a, b with
-  | None, None => Eq
-  | None, Some _ => Lt
-  | Some _, None => Gt
-  | Some x, Some y => N.compare (b2N x) (b2N y)
-  end.
-
-(* gix_features::fs::shared::cmp_entry_names(a, a_is_dir, b, b_is_dir):
-     common = min(len a, len b);  a[..common].cmp(&b[..common]).then_with(||
-        a.get(common).or(a_is_dir.then_some(b'/')) .cmp( b.get(common).or(b_is_dir.then_some(b'/')) ))
-   written as one simultaneous recursion over both names: bytes are compared pairwise while both
-   names last (the slice comparison), then the "next byte" of each side is compared. *)
-Fixpoint cmp_entry_names (a : bytes) (a_is_dir : bool) (b : bytes) (b_is_dir : bool) : comparison :=
-  match a, b with
-  | x :: a', y :: b' =>
-      match N.compare (b2N x) (b2N y) with
-      | Eq => cmp_entry_names a' a_is_dir b' b_is_dir
-      | c => c
-      end
-  | _, _ =>
-      cmp_opt_byte (match a with x :: _ => Some x | [] => if a_is_dir then Some slash else None end)
-                   (match b with y :: _ => Some y | [] => if b_is_dir then Some slash else None end)
-  end.
-
-(* Relative order in which a pre-order traversal that sorts the entries of every directory with
-   [cmp_entry_names] reaches two regular files, given by their component lists: the first component
-   in which they differ names two entries of the same directory; an entry is a directory iff
-   components follow it. *)
+(* gix_features::fs::walkdir_sorted_new = walkdir's sort_by_file_name: the entries of every directory are
+   visited in the byte order of their file names, directories are descended into when they are reached
+   (pre-order).  Relative order in which such a traversal reaches two regular files, given by their
+   component lists: decided by the first component in which they differ. *)
 Fixpoint path_cmp (xs ys : list bytes) : comparison :=
   match xs, ys with
   | [], [] => Eq
   | [], _ :: _ => Lt
   | _ :: _, [] => Gt
   | x :: xs', y :: ys' =>
-      if bytes_eqb x y then path_cmp xs' ys'
-      else cmp_entry_names x (negb (is_nil xs')) y (negb (is_nil ys'))
+      match bytes_cmp x y with
+      | Eq => path_cmp xs' ys'
+      | c => c
+      end
   end.
 
 Section Sort.
@@ -101,6 +77,10 @@ Definition under (root : bytes) (f : file) : bool :=
   match root with [] => true | _ => starts_with (fname f) (root ++ [slash]) end.
 Definition walk (root : bytes) (files : list file) : list file :=
   isort (fun a b => path_cmp (fst a) (fst b)) (filter (under root) files).
+
+(* `items.sort_by(|a, b| a.1.cmp(&b.1))` of SortedLoosePaths::next: a stable sort by full name *)
+Definition sort_by_name (l : list file) : list file :=
+  isort (fun a b => bytes_cmp (fname a) (fname b)) l.
 
 (* ---- references ------------------------------------------------------------------------- *)
 
@@ -140,10 +120,12 @@ Definition convert_loose (f : file) : item :=
 
 Definition name_ok (n : bytes) : bool := match ref_name_partial n with Ok _ => true | _ => false end.
 
-(* SortedLoosePaths: regular files of the walk, filtered by prefix and by name validity *)
+(* SortedLoosePaths: regular files of the walk, filtered by prefix and by name validity
+   (next_in_walk_order), then collected and sorted by full name (next) *)
 Definition sorted_loose (root : bytes) (prefix : option bytes) (files : list file) : list file :=
-  filter (fun f => match prefix with Some p => starts_with (fname f) p | None => true end && name_ok (fname f))
-         (walk root files).
+  sort_by_name
+    (filter (fun f => match prefix with Some p => starts_with (fname f) p | None => true end && name_ok (fname f))
+            (walk root files)).
 
 Definition prec := (bytes * (bytes * option bytes))%type.     (* name, (target hex, peeled hex) *)
 Definition convert_packed (r : prec) : item :=
